@@ -422,6 +422,51 @@ def coerce_node_error(node, exception):
     node_error.__cause__ = exception
     return node_error
 ''')
+    # ---- premises of the reduction argument (DESIGN 3.2): which shared variable is written where
+    def with_names(node, root):
+        """names of the lock context managers enclosing `node` inside `root`"""
+        out = []
+
+        def walk(n, stack):
+            if n is node:
+                out.append(list(stack))
+                return
+            for ch in ast.iter_child_nodes(n):
+                if isinstance(n, ast.With):
+                    names = [ast.unparse(i.context_expr) for i in n.items]
+                    walk(ch, stack + names if ch in n.body else stack)
+                else:
+                    walk(ch, stack)
+        walk(root, [])
+        return out[0] if out else []
+
+    writes = {"error_count": [], "first_node_error": [], "stop": [], "remaining_pred_count_mapping": []}
+    for n in ast.walk(pn):
+        tgt = None
+        if isinstance(n, ast.AugAssign):
+            tgt = n.target
+        elif isinstance(n, ast.Assign) and len(n.targets) == 1:
+            tgt = n.targets[0]
+        if tgt is None:
+            continue
+        name = tgt.id if isinstance(tgt, ast.Name) else (tgt.value.id if isinstance(tgt, ast.Subscript) and isinstance(tgt.value, ast.Name) else None)
+        if name in writes:
+            writes[name].append(with_names(n, pn))
+    flags["errorStateWrittenOnlyUnderFailureLock"] = (
+        all(w == ["failure_lock"] for w in writes["error_count"] + writes["first_node_error"] + writes["stop"])
+        and len(writes["error_count"]) == 1 and len(writes["first_node_error"]) == 1 and len(writes["stop"]) == 1)
+    flags["counterWrittenOnlyUnderCounterLock"] = (
+        writes["remaining_pred_count_mapping"] == [["remaining_pred_count_lock"]])
+    # reads of the counter also only under its lock; `stop` is read exactly once, first thing
+    sub_reads = [n for n in ast.walk(pn) if isinstance(n, ast.Subscript) and isinstance(n.value, ast.Name)
+                 and n.value.id == "remaining_pred_count_mapping" and isinstance(n.ctx, ast.Load)]
+    flags["counterReadOnlyUnderCounterLock"] = all(with_names(n, pn) == ["remaining_pred_count_lock"] for n in sub_reads)
+    stop_reads = [n for n in ast.walk(pn) if isinstance(n, ast.Name) and n.id == "stop" and isinstance(n.ctx, ast.Load)]
+    flags["stopReadOnce"] = len(stop_reads) == 1
+    # outside process_node: `stop` is assigned only at its initialisation and in the coordinator's finally
+    outer_stop = [n for n in ast.walk(rf) if isinstance(n, ast.Assign) and len(n.targets) == 1 and isinstance(n.targets[0], ast.Name)
+                  and n.targets[0].id == "stop" and not any(n is m for m in ast.walk(pn))]
+    flags["stopAssignedTwiceOutside"] = len(outer_stop) == 2
     if stop_cond is None or ready_cond is None or classify is None:
         missing = [n for n, v in (("stop condition", stop_cond), ("zero test", ready_cond), ("prepare_nodes tests", classify)) if v is None]
         raise TranslateError(F, "cannot locate " + ", ".join(missing) + " (shape of process_node / prepare_nodes changed)")
